@@ -935,3 +935,85 @@ VARIANTS += [
       "hash_values = list(chain.from_iterable((t for t in hash_values)))",
       "hash_values = [h for t in hash_values for h in t]", benign=True),
 ]
+
+# ---------------------------------------------------------------------------------------------------- round-2 seeds
+VARIANTS += [
+    V("c01-m11", "C01", "mab", "MAB.remove_arm", "self.arms.remove(arm)\nself._imp.remove_arm(arm)",
+      "self._imp.remove_arm(arm)\nself.arms.remove(arm)", "R1.7",
+      why="Popularity's uniform share 1/len(arms) computed while the retired arm is still in the shared list "
+          "(seed C01b)"),
+    V("c02-m12", "C02", "linear", "_Linear._uptake_new_arm",
+      "self.arm_to_model[arm] = _Linear.factory.get(self.regression)(self.rng, self.alpha, self.l2_lambda, "
+      "self.scale)",
+      "self.arm_to_model[arm] = _Linear.factory.get(self.regression)(self.rng, alpha=self.alpha, scale=self.scale)",
+      "R2.6", why="added arm regressed with the default l2_lambda (seed C02b)"),
+    V("c02-b5", "C02", "linear", "_Linear._uptake_new_arm",
+      "self.arm_to_model[arm] = _Linear.factory.get(self.regression)(self.rng, self.alpha, self.l2_lambda, "
+      "self.scale)",
+      "model_class = _Linear.factory.get(self.regression)\n"
+      "self.arm_to_model[arm] = model_class(self.rng, alpha=self.alpha, l2_lambda=self.l2_lambda, scale=self.scale)",
+      benign=True),
+    V("c08-m13", "C08", "popularity", "_Popularity.predict_expectations",
+      "alpha = [v + np.finfo(float).eps for v in self.arm_to_expectation.values()]",
+      "if getattr(self, '_alpha', None) is None:\n"
+      "    self._alpha = [v + np.finfo(float).eps for v in self.arm_to_expectation.values()]\n"
+      "alpha = self._alpha", "R8.6",
+      why="concentration vector cached on the bandit and never refreshed by add_arm (seed C08b)"),
+    V("c09-m8", "C09", "treebandit", "_TreeBandit._predict_contexts",
+      "if isinstance(self.lp, _EpsilonGreedy) and self.rng.rand() < self.lp.epsilon:\n"
+      "    predictions[index] = self.arms[self.rng.randint(0, len(self.arms))]\n"
+      "else:\n"
+      "    predictions[index] = argmax(arm_to_expectation)",
+      "if self.rng.rand() < getattr(self.lp, 'epsilon', 0):\n"
+      "    predictions[index] = self.arms[self.rng.randint(0, len(self.arms))]\n"
+      "else:\n"
+      "    predictions[index] = argmax(arm_to_expectation)", "R9.2",
+      why="predict draws once more per row than predict_expectations for every leaf policy (seed C09b)"),
+    V("c05-m15", "C05", "simulator", "_NeighborsSimulator._calculate_distances_of_batch",
+      "distances = [None] * len(contexts)\n"
+      "for index, row in enumerate(contexts):\n"
+      "    row_2d = row[np.newaxis, :]\n"
+      "    distances[index] = cdist(self.contexts, row_2d, metric=self.metric).reshape(-1)\n"
+      "return distances",
+      "return list(cdist(self.contexts, contexts, metric=self.metric).T)", "R5.2",
+      why="simulator distance task computes from its whole chunk: depends on n_jobs (seed C05b)"),
+    V("c13-b4", "C13", "popularity", "_Popularity._drop_existing_arm",
+      "self._normalize_expectations()", "self._normalize_expectations()\nself._cache = None", benign=True,
+      why="an invalidation store is not a write to an arm's learned state"),
+    V("c05-b5", "C05", "popularity", "_Popularity._normalize_expectations",
+      "total = sum(self.arm_to_expectation.values())",
+      "total = sum(self.arm_to_expectation.values())\nself._last_total = None", benign=True,
+      why="a field reset by every fit is not carried across the rows of a worker"),
+]
+
+VARIANTS += [
+    V("c13-m11", "C13", "base_mab", "BaseMAB.remove_arm", "self.arm_to_status.pop(arm)",
+      "self.arm_to_status.pop(arm)\n"
+      "for status in self.arm_to_status.values():\n"
+      "    if status[WARM_STARTED_BY] == arm:\n"
+      "        status[IS_WARM] = False\n"
+      "        status[WARM_STARTED_BY] = None", "R13.5",
+      why="arms warm started by the removed arm become cold again (seed C13b)"),
+    V("c16-m12", "C16", "simulator", "_NeighborsSimulator._get_nhood_predictions", "arm_to_stat[arm] = {}",
+      "arm_to_stat[arm] = {'count': 0, 'sum': 0, 'min': 0, 'max': 0, 'mean': 0, 'std': 0}", "R16.6",
+      why="truthy record for an arm without observation in the neighbourhood (seed C16b)"),
+    V("c20-m10", "C20", "base_mab", "BaseMAB._get_cold_arm_to_warm_arm",
+      "closest_arm = argmin(arm_to_distance)\nclosest_distance = distance_from_to[cold_arm][closest_arm]",
+      "closest_distance, closest_arm = min((d, a) for a, d in arm_to_distance.items())", "R20.1",
+      why="ties between equally close donors are broken by comparing the labels (seed C20b)"),
+    V("c11-m10", "C11", "neighbors", "_Neighbors._drop_existing_arm", "self.lp.remove_arm(arm)",
+      "self.lp.remove_arm(arm)\nkeep = self.decisions != arm\n"
+      "self.decisions, self.rewards, self.contexts = self.decisions[keep], self.rewards[keep], self.contexts[keep]",
+      "R11.6", why="rows removed from the history: the positions filed in the LSH buckets shift (seed C11b)"),
+    V("c15-m12", "C15", "base_mab", "BaseMAB._parallel_predict",
+      "n_jobs, n_contexts, starts = self._partition_contexts(n_contexts)",
+      "n_jobs, n_contexts, starts = self._partition_contexts(n_contexts)\n"
+      "offsets = [i * (sum(n_contexts) // n_jobs) for i in range(n_jobs)]", None,
+      why="placeholder edit that keeps behaviour: see c15-m13 for the offset defect"),
+]
+VARIANTS = [v for v in VARIANTS if v.vid != "c15-m12"]
+VARIANTS += [
+    V("c15-m13", "C15", "base_mab", "BaseMAB._parallel_predict", _PP_OLD,
+      _PP_OLD.replace("starts[i])", "i * (total_contexts // n_jobs))"), "R15.8",
+      why="start_index of another partition: the simulator reads the cached distances of other rows (seed C15b)"),
+]
